@@ -411,7 +411,15 @@ def nthroot_fixed(y, n, prec, exp1):
     extra = 10
     extra1 = n
     prevp = start
-    for p in giant_steps(start, prec+extra):
+    # A Newton step squares the relative error and multiplies it by about
+    # (n-1)/2, and the starting value is accurate to about start-1 bits:
+    # choose precision steps p' <= 2*p - c (giant_steps leaves a fixed margin
+    # of 4 bits, which is not enough for n > 5 or a full first doubling)
+    c = bitcount(n) + 3
+    steps = [prec+extra]
+    while steps[-1] > 2*(start-1) - c:
+        steps.append((steps[-1] + c)//2 + 1)
+    for p in steps[::-1]:
         pm, pe = int_pow_fixed(r, n-1, prevp)
         r2 = rshift(pm, (n-1)*prevp - p - pe - extra1)
         B = lshift(y, 2*p-prec+extra1)//r2
